@@ -291,7 +291,7 @@ def sup_member(desc, tier, seed):
         lopts = [b.name_of[o] for o in src.get_option_nodes(b.choice[last.cid])]
         nmap = {b.node[o]: (n1 if i % 2 == 0 else n2) for i, o in enumerate(lopts)}
         nmap[None] = n2
-        maps.append((nc, SupSelChoiceOptionMapping(b.choice[last.cid], nmap)))
+        maps.append((nc, SupSelChoiceOptionMapping(b.choice[last.cid], dict(nmap))))
         if unmapped:
             sup.add_selection_choice('sup_unmapped', root, [SupNode('u1'), SupNode('u2')])
         for sc, m in maps:
